@@ -663,3 +663,178 @@ termination_by (sizeOf kvs, 0)
 end
 
 end Verif.Model.Schema
+
+namespace Verif.Model.Schema
+
+/-! ## Library-side constructors (`create_*` helpers) as expressions over wire values
+
+`Gen/Builders.lean` is REGENERATED from the AST of the helpers: parameters, locals, constants,
+list / dict displays, `a or b`, keyword constructor calls; straight-line bodies with
+`if <param> [is (not) None]:` guarding one assignment or one `d[key] = …`. -/
+
+inductive BKey where
+  | lit (s : String)
+  | param (p : String)
+  deriving Repr, Inhabited
+
+inductive BCond where
+  | truthy (p : String)
+  | notNone (p : String)
+  | isNone (p : String)
+  deriving Repr, Inhabited
+
+inductive BExpr where
+  | param (p : String)
+  | const (j : Json)
+  | list (xs : List BExpr)
+  | dict (kvs : List (BKey × BExpr))
+  /-- `Class(attr=…, …)`: keyword arguments by ATTRIBUTE name -/
+  | model (cls : String) (kws : List (String × BExpr))
+  | orElse (a b : BExpr)
+  /-- `a if <cond> else b` -/
+  | ite (c : BCond) (a b : BExpr)
+  deriving Repr, Inhabited
+
+inductive BStmt where
+  | assign (x : String) (e : BExpr)
+  | assignIf (c : BCond) (x : String) (e : BExpr)
+  | setKeyIf (c : BCond) (x : String) (k : BKey) (e : BExpr)
+  deriving Repr, Inhabited
+
+structure Builder where
+  module : String
+  name : String
+  /-- parameter names with their default (`none` = required) -/
+  params : List (String × Option Json)
+  body : List BStmt
+  ret : BExpr
+  deriving Repr, Inhabited
+
+/-- a `parse_*` helper that dispatches on one member of the wire object -/
+structure ParseTable where
+  module : String
+  name : String
+  member : String
+  table : List (String × String)
+  deriving Repr, Inhabited
+
+/-- Python truthiness of a JSON value -/
+def Json.truthy : Json → Bool
+  | .null => false
+  | .bool b => b
+  | .int i => i != 0
+  | .flt _ => true
+  | .str s => s != ""
+  | .arr xs => !xs.isEmpty
+  | .obj kvs => !kvs.isEmpty
+
+def evalKey (env : Obj) : BKey → Option String
+  | .lit s => some s
+  | .param p => match lookup p env with
+    | some (.str s) => some s
+    | _ => none
+
+def evalCond (env : Obj) : BCond → Option Bool
+  | .truthy p => (lookup p env).map Json.truthy
+  | .notNone p => (lookup p env).map (fun v => !v.isNull)
+  | .isNone p => (lookup p env).map Json.isNull
+
+mutual
+def evalB (env : Obj) (e : BExpr) : Option Json :=
+  match e with
+  | .param p => lookup p env
+  | .const j => some j
+  | .list xs => (evalBList env xs).map .arr
+  | .dict kvs => (evalBDict env kvs).map .obj
+  | .model _ kws => (evalBKws env kws).map .obj
+  | .orElse a b => match evalB env a with
+    | some v => if v.truthy then some v else evalB env b
+    | none => none
+  | .ite c a b => match evalCond env c with
+    | some true => evalB env a
+    | some false => evalB env b
+    | none => none
+
+def evalBList (env : Obj) (xs : List BExpr) : Option (List Json) :=
+  match xs with
+  | [] => some []
+  | x :: r => match evalB env x, evalBList env r with
+    | some v, some vs => some (v :: vs)
+    | _, _ => none
+
+def evalBDict (env : Obj) (kvs : List (BKey × BExpr)) : Option (List (String × Json)) :=
+  match kvs with
+  | [] => some []
+  | (k, x) :: r => match evalKey env k, evalB env x, evalBDict env r with
+    | some s, some v, some vs =>
+      -- a dict display: a repeated key keeps its first position and its last value
+      if hasKey s vs then some ((s, (lookup s vs).getD v) :: vs.filter (fun p => p.1 != s)) else some ((s, v) :: vs)
+    | _, _, _ => none
+
+def evalBKws (env : Obj) (kws : List (String × BExpr)) : Option (List (String × Json)) :=
+  match kws with
+  | [] => some []
+  | (k, x) :: r => match evalB env x, evalBKws env r with
+    | some v, some vs => some ((k, v) :: vs)
+    | _, _ => none
+end
+
+def execStmt (env : Obj) : BStmt → Option Obj
+  | .assign x e => (evalB env e).map (fun v => setKey x v env)
+  | .assignIf c x e => match evalCond env c with
+    | some true => (evalB env e).map (fun v => setKey x v env)
+    | some false => some env
+    | none => none
+  | .setKeyIf c x k e => match evalCond env c with
+    | some true => match lookup x env, evalKey env k, evalB env e with
+      | some (.obj d), some s, some v => some (setKey x (.obj (setKey s v d)) env)
+      | _, _, _ => none
+    | some false => some env
+    | none => none
+
+def execBody (env : Obj) : List BStmt → Option Obj
+  | [] => some env
+  | s :: r => match execStmt env s with
+    | some env' => execBody env' r
+    | none => none
+
+/-- bind the call's keyword arguments: a missing parameter takes its default, a missing required one fails -/
+def bindParams (ps : List (String × Option Json)) (args : Obj) : Option Obj :=
+  match ps with
+  | [] => some []
+  | (p, d) :: r => match (match lookup p args with | some v => some v | none => d), bindParams r args with
+    | some v, some env => some ((p, v) :: env)
+    | _, _ => none
+
+def BExpr.retClass : BExpr → Option String
+  | .model c _ => some c
+  | _ => none
+
+/-- what the helper hands to the constructor: the keyword arguments by attribute name (or the plain
+value it returns when it builds no model) -/
+def Builder.eval (b : Builder) (args : Obj) : Option Json :=
+  match bindParams b.params args with
+  | none => none
+  | some env => match execBody env b.body with
+    | none => none
+    | some env' => evalB env' b.ret
+
+/-- the helper's result as a typed value -/
+def Builder.run (cfg : Cfg) (b : Builder) (args : Obj) : Except String TVal :=
+  match b.eval args with
+  | none => .error "arguments do not fit the helper"
+  | some j => match b.ret.retClass with
+    | some c => validate cfg (.ref c) j
+    | none => .ok (.leaf j)
+
+/-- `parse_*` dispatch: the class the table names for the member's value -/
+def ParseTable.run (cfg : Cfg) (p : ParseTable) (j : Json) : Except String TVal :=
+  match j with
+  | .obj kvs => match lookup p.member kvs with
+    | some (.str s) => match lookup s p.table with
+      | some cls => validate cfg (.ref cls) j
+      | none => .error "unknown tag"
+    | _ => .error "unknown tag"
+  | _ => .error "not an object"
+
+end Verif.Model.Schema
